@@ -107,14 +107,16 @@ Proof.
   - apply every_spec. intros x Hx. apply -> uniq_In in Hx. exact Hx.
 Qed.
 
-Lemma add_is_union_nodup_lemma : forall s ls, ls <> [] ->
-  add_ok s ls (s_add s ls) = true /\
-  NoDup (s_add s ls) /\
-  (forall x, In x (s_add s ls) <-> In x s \/ exists l, In l ls /\ In x l) /\
-  s_add s ls = uniq (s ++ concat ls).
+Lemma add_is_union_nodup_k_lemma : forall s ls,
+  add_ok s ls (s_add_k true s ls) = true /\
+  NoDup (s_add_k true s ls) /\
+  (forall x, In x (s_add_k true s ls) <-> In x s \/ exists l, In l ls /\ In x l) /\
+  s_add_k true s ls = uniq (s ++ concat ls).
 Proof.
-  intros s ls H. unfold s_add, s_add_k. destruct ls as [|l r]; [congruence|].
-  repeat split.
+  intros s ls.
+  assert (E : s_add_k true s ls = uniq (s ++ concat ls)).
+  { unfold s_add_k. destruct ls; [simpl; rewrite app_nil_r|]; reflexivity. }
+  rewrite E. repeat split.
   - apply add_ok_uniq.
   - apply uniq_NoDup.
   - intros Hx. apply -> uniq_In in Hx. apply in_app_or in Hx. destruct Hx as [Hx|Hx]; [left; exact Hx|].
@@ -123,17 +125,17 @@ Proof.
     right. apply In_concat_ex. exact Hx.
 Qed.
 
-Lemma add_fixed_lemma : forall s ls, add_ok s ls (s_add_k true s ls) = true.
-Proof.
-  intros s ls. unfold s_add_k. destruct ls as [|l r]; [|apply add_ok_uniq].
-  pose proof (add_ok_uniq s []) as H. simpl in H. rewrite app_nil_r in H. exact H.
-Qed.
+(* about today's S.Add (knob add_noargs_uniq) *)
+Lemma add_is_union_nodup_lemma : forall s ls,
+  add_ok s ls (s_add s ls) = true /\
+  NoDup (s_add s ls) /\
+  (forall x, In x (s_add s ls) <-> In x s \/ exists l, In l ls /\ In x l) /\
+  s_add s ls = uniq (s ++ concat ls).
+Proof. exact add_is_union_nodup_k_lemma. Qed.
 
-Lemma add_noargs_lemma : forall s, s_add s [] = s.
-Proof. reflexivity. Qed.
-
-Lemma add_full_refuted_lemma :
-  exists s ls, add_ok s ls (s_add s ls) = false.
+(* the variant without the fix (S.Add() returned the receiver as is) *)
+Lemma add_unfixed_refuted_lemma :
+  exists s ls, add_ok s ls (s_add_k false s ls) = false.
 Proof. exists [0; 0], []. vm_compute. reflexivity. Qed.
 
 Lemma add1_is_union_nodup_lemma : forall s names,
@@ -317,25 +319,6 @@ Lemma delete_removes_from0_dup_refuted_lemma :
   exists s ls, delete_ok s ls (s_rem_at 0 s ls) = false.
 Proof. exists [0; 0], [[0]]. vm_compute. reflexivity. Qed.
 
-(* today's loop skips the first list *)
-Lemma s_rem_skips_first_lemma : forall s l rest,
-  s_rem_at 1 s (l :: rest) = fold_left rem_list rest s.
-Proof. reflexivity. Qed.
-
-Lemma delete_one_list_lemma : forall s l, s_rem_at 1 s [l] = s.
-Proof. reflexivity. Qed.
-
-Lemma delete_partial_lemma : forall s l rest, NoDup s ->
-  delete_ok s rest (s_rem_at 1 s (l :: rest)) = true.
-Proof.
-  intros. rewrite s_rem_skips_first_lemma. unfold delete_ok. apply list_eqb_eq.
-  apply rem_lists_nodup. assumption.
-Qed.
-
-Lemma delete_removes_refuted_lemma :
-  exists s l x, In x l /\ In x (s_rem_at 1 s [l]) /\ delete_ok s [l] (s_rem_at 1 s [l]) = false.
-Proof. exists [0; 1], [0], 0. repeat split; simpl; auto. Qed.
-
 (* never loses or invents anything, whatever the start index *)
 Lemma without_incl : forall s x y, In y (without s x) -> In y s.
 Proof.
@@ -469,14 +452,20 @@ Proof.
     apply (known_dup_inv n states []); [constructor | simpl; tauto | exact H].
 Qed.
 
-Lemma parse_states_refuted_lemma :
-  exists n states x, known n x = false /\ In x (snd (parse_states n states)) /\
-    parse_ok n states (snd (parse_states n states)) = false.
+(* the variant without the fix: unknown names survive next to a duplicate *)
+Lemma parse_states_unfixed_refuted_lemma :
+  exists n states x, known n x = false /\ In x (snd (parse_states_k false n states)) /\
+    parse_ok n states (snd (parse_states_k false n states)) = false.
 Proof. exists 2, [0; 0; 5], 5. vm_compute. repeat split. right. left. reflexivity. Qed.
 
-(* with a duplicate, today's result is exactly slicesUniq(states) *)
+Lemma parse_states_lemma : forall n states,
+  parse_ok n states (snd (parse_states n states)) = true.
+Proof. exact parse_states_fixed_lemma. Qed.
+
+(* with a duplicate: the unique known names, in the order given *)
 Lemma parse_states_dup_lemma : forall n states,
-  has_known_dup n [] states = true -> parse_states n states = (true, uniq states).
+  has_known_dup n [] states = true ->
+  parse_states n states = (true, uniq (filter (known n) states)).
 Proof. intros. unfold parse_states, parse_states_k. rewrite H. reflexivity. Qed.
 
 Lemma must_parse_lemma : forall n states r,
@@ -563,9 +552,22 @@ Proof.
   unfold first_branch. destruct queue; discriminate.
 Qed.
 
-Lemma is_queued_total_refuted_lemma :
-  exists n q, is_queued n [] q = None.
-Proof. exists 1, (mk_qquery 0 [0] false false 0 false 1). reflexivity. Qed.
+Lemma is_queued_unfixed_refuted_lemma :
+  exists la n q, is_queued_k false la n [] q = None.
+Proof. exists false, 1, (mk_qquery 0 [0] false false 0 false 1). reflexivity. Qed.
+
+Lemma is_queued_total_lemma : forall n queue q, is_queued n queue q <> None.
+Proof. intros. apply is_queued_total_fixed_lemma. Qed.
+
+Lemma will_be_total_lemma : forall n queue states pos,
+  will_be n queue states pos <> None /\ will_be_removed n queue states pos <> None.
+Proof.
+  intros. unfold will_be, will_be_removed. split.
+  - destruct (is_queued n queue (will_query 0 states pos)) as [[[f i] t]|] eqn:E; [discriminate|].
+    exfalso. apply (is_queued_total_lemma _ _ _ E).
+  - destruct (is_queued n queue (will_query 1 states pos)) as [[[f i] t]|] eqn:E; [discriminate|].
+    exfalso. apply (is_queued_total_lemma _ _ _ E).
+Qed.
 
 Lemma nth_error_skipn : forall {A} (l : list A) k j,
   nth_error (skipn k l) j = nth_error l (k + j).
@@ -912,8 +914,11 @@ Proof.
   destruct t2 as [|b s]; [discriminate|]. destruct (a =? b); [apply IH | discriminate].
 Qed.
 
-Lemma time_equal_total_refuted_lemma : exists t t2, time_equal false t t2 = None.
+Lemma time_equal_unfixed_refuted_lemma : exists t t2, time_equal_k false false t t2 = None.
 Proof. exists [1; 2], [1]. reflexivity. Qed.
+
+Lemma time_equal_total_lemma : forall strict t t2, time_equal strict t t2 <> None.
+Proof. exact time_equal_total_fixed_lemma. Qed.
 
 Lemma time_equal_strict_spec_lemma : forall g t t2,
   time_equal_k g true t t2 = Some true <-> t = t2.
@@ -962,12 +967,13 @@ Proof.
   intros. unfold active_ok, time_active_k. destruct idxs; apply list_eqb_refl.
 Qed.
 
-Lemma time_active_filter_refuted_lemma :
-  exists t idxs, active_ok t (Some idxs) (time_active t (Some idxs)) = false.
+Lemma time_active_unfixed_refuted_lemma :
+  exists t idxs, active_ok t (Some idxs) (time_active_k false t (Some idxs)) = false.
 Proof. exists [1; 1], [0%Z]. reflexivity. Qed.
 
-Lemma time_active_nil_lemma : forall t, active_ok t None (time_active t None) = true.
-Proof. intros. unfold active_ok, time_active, time_active_k. apply list_eqb_refl. Qed.
+Lemma time_active_filter_lemma : forall t idxs, active_ok t idxs (time_active t idxs) = true.
+Proof. exact time_active_filter_fixed_lemma. Qed.
+
 
 (* NewTime: exactly the listed states are active (tick 1), the others 0 *)
 Lemma set_nth_other : forall t k v j, j <> k -> nth j (set_nth t k v) 0 = nth j t 0.
@@ -1143,20 +1149,14 @@ Proof.
   destruct (i <? Z.of_nat (length index))%Z; discriminate.
 Qed.
 
-Definition equal_guard (op : time_op) : bool :=
-  match op with
-  | TEqual false t t2 => Nat.leb (length t) (length t2)
-  | _ => true
-  end.
-
 Lemma of_opt_not_panic : forall {A} (f : A -> val) (o : option A),
   (forall x, f x <> VPanic) -> o <> None -> of_opt f o <> VPanic.
 Proof. intros A f o Hf Ho. destruct o; [apply Hf | congruence]. Qed.
 
 Lemma time_ops_total_lemma : forall op,
-  time_in_domain op = true -> equal_guard op = true -> run_time op <> VPanic.
+  time_in_domain op = true -> run_time op <> VPanic.
 Proof.
-  intros op Hd Hg.
+  intros op Hd.
   destruct op; simpl in Hd |- *; try discriminate;
     try (apply of_opt_not_panic; [intros; discriminate|]).
   - apply new_time_total_lemma. exact Hd.
@@ -1165,9 +1165,7 @@ Proof.
   - unfold time_filter. apply opt_map_some. intros i Hi. apply filter_one_total.
     rewrite forallb_forall in Hd. apply Hd. exact Hi.
   - destruct idxs as [l|]; simpl; [apply sum_sel_total; exact Hd | discriminate].
-  - simpl in Hg. unfold time_equal. destruct strict.
-    + apply time_equal_total_partial_lemma. left. reflexivity.
-    + apply time_equal_total_partial_lemma. right. apply Nat.leb_le. exact Hg.
+  - apply time_equal_total_lemma.
   - unfold time_tick. unfold idx_nonneg in Hd.
     destruct (get_nonneg_cases t i) as [E|[E [v G]]]; [lia | |]; rewrite E; [discriminate|].
     rewrite G. discriminate.
@@ -1218,36 +1216,35 @@ Close Scope N_scope.
 (* statements assembled for Props/C20.v                                 *)
 
 Lemma model_is_todays_code_lemma :
-  s_rem_from = 1 /\ parse_dup_filters = false /\ first_guards_empty = false /\
-  last_idx_absolute = false /\ active_states_filters = false /\
-  time_equal_guards = false /\ add_noargs_uniq = false.
+  s_rem_from = 0 /\ parse_dup_filters = true /\ first_guards_empty = true /\
+  last_idx_absolute = false /\ active_states_filters = true /\
+  time_equal_guards = true /\ add_noargs_uniq = true.
 Proof. repeat split. Qed.
 
-Lemma delete1_refuted_lemma :
-  (forall s names, s_rem_at 1 s [names] = s) /\
-  exists s names, delete_ok s [names] (s_rem_at 1 s [names]) = false.
+(* S.Delete / S.Delete1 / SRem of today (knob s_rem_from) *)
+Lemma delete_removes_lemma : forall s ls, NoDup s ->
+  delete_ok s ls (s_delete s ls) = true /\ delete_ok s ls (s_rem s ls) = true.
+Proof. intros s ls H. split; exact (delete_removes_from0_lemma s ls H). Qed.
+
+Lemma delete1_removes_lemma : forall s names, NoDup s ->
+  delete_ok s [names] (s_delete1 s names) = true.
+Proof. intros s names H. exact (delete_removes_from0_lemma s [names] H). Qed.
+
+Lemma delete_removes_dup_refuted_lemma :
+  exists s ls, delete_ok s ls (s_delete s ls) = false.
+Proof. exact delete_removes_from0_dup_refuted_lemma. Qed.
+
+(* the variant without the fix (loop from 1) ignores the first list *)
+Lemma delete_unfixed_refuted_lemma :
+  (forall s l, s_rem_at 1 s [l] = s) /\
+  exists s l, delete_ok s [l] (s_rem_at 1 s [l]) = false.
 Proof. split; [reflexivity | exists [0; 1], [0]; reflexivity]. Qed.
 
-Lemma delete_removes_partial_lemma :
-  forall s l rest, NoDup s ->
-    s_rem_at 1 s (l :: rest) = s_rem_at 0 s rest /\
-    delete_ok s rest (s_rem_at 1 s (l :: rest)) = true.
+Lemma is_queued_sound_today_lemma : forall n queue q f i t,
+  qq_pos q <> 2%N ->
+  is_queued n queue q = Some (f, i, t) ->
+  is_queued_sound n queue q (VQ f i t) = true.
 Proof.
-  intros s l rest H. split.
-  - rewrite s_rem_skips_first_lemma. destruct rest; reflexivity.
-  - exact (delete_partial_lemma s l rest H).
-Qed.
-
-Lemma time_helpers_total_lemma :
-  forall op,
-    time_in_domain op = true ->
-    match op with
-    | TEqual false t t2 => (length t <= length t2)%nat
-    | _ => True
-    end ->
-    run_time op <> VPanic.
-Proof.
-  intros op Hd Hg. apply time_ops_total_lemma; [exact Hd|].
-  destruct op; try reflexivity. destruct strict; [reflexivity|].
-  simpl. apply Nat.leb_le. exact Hg.
+  intros n queue q f i t Hp H.
+  apply (is_queued_sound_lemma first_guards_empty last_idx_absolute n queue q f i t); [left; exact Hp | exact H].
 Qed.
